@@ -164,8 +164,11 @@ def run(ck):
         return ck.validate_segments("Dict_Trace", "trace/Dict_Trace.cfg", tp, timeout=3000, name="trace_" + os.path.basename(tp)[:9], heap_gb=3)
     nontrivial = 0
     for tp, (res, rejected) in zip(rtraces + dtraces, vlib.parallel(val, rtraces + dtraces, n=16)):
+        inputs = {t[1] for t in res.tuples("NOTE") if len(t) >= 3 and t[2] == "balances-input"}
         for rj in rejected:
             seg, e = rj["segment"], rj["event"]
+            if rj["line"] in inputs:
+                raise Infra("the shard state built for a Balances event does not hold the accounts derived from the map (%s line %d)" % (tp, rj["line"]))
             kind = seg[0].get("kind", "?")
             ck.report(fkey(seg, e, kind), "recorded dictionary operation is not a step of Dict (%s key, n=%s, source %s): segment accepted %d of %d events; rejected %s" % (
                 kind, seg[0].get("n"), seg[0].get("src"), rj["accepted"], rj["length"], json.dumps(cellcommon.slim(e, 600))),
@@ -183,17 +186,26 @@ def run(ck):
     # canaries
     allev = [e for tp in rtraces[:2] for e in vlib.read_ndjson(tp) if e.get("k") != "End"]
     starts = [i for i, e in enumerate(allev) if e["k"] == "Reset"] + [len(allev)]
-    seg = next(allev[a:b] for a, b in zip(starts, starts[1:]) if sum(1 for e in allev[a:b] if e["k"] == "Put") >= 3 and any(e["k"] == "Enc" and e["err"] == "" for e in allev[a:b]))
-    ienc = next(i for i, e in enumerate(seg) if e["k"] == "Enc")
-    iget = next(i for i, e in enumerate(seg) if e["k"] == "Get" and e["found"])
-    c1 = copy.deepcopy(seg[:ienc + 1]); lastc = c1[ienc]["cells"][-1]; lastc["b"] = lastc["b"][:-1] + ("0" if lastc["b"][-1] == "1" else "1")   # one value bit flipped in the tree
-    c2 = copy.deepcopy(seg[:iget + 1]); c2[iget]["val"] = c2[iget]["val"][:-1] + ("0" if c2[iget]["val"][-1] == "1" else "1")
-    c3 = copy.deepcopy(seg[:1] + seg[2:ienc + 1])      # first Put dropped
-    idec = next(i for i, e in enumerate(seg) if e["k"] == "Dec")
-    c4 = copy.deepcopy(seg[:idec + 1]); c4[idec]["items"] = list(reversed(c4[idec]["items"]))
+    def complete(sg):
+        return (sum(1 for e in sg if e["k"] == "Put") >= 3 and any(e["k"] == "Enc" and e["err"] == "" for e in sg)
+                and any(e["k"] == "Get" and e["found"] for e in sg) and any(e["k"] == "Dec" and e["err"] == "" and len(e["items"]) >= 2 for e in sg))
+    seg = next((allev[a:b] for a, b in zip(starts, starts[1:]) if complete(allev[a:b])), None)
     p = os.path.join(ck.work, "canary.ndjson")
     # (the three groups of canaries below are judged by ONE TLC run over one file: part A, part B, part C)
-    partA = c1 + c2 + c3 + c4 + copy.deepcopy(seg)
+    if seg is None:
+        if not (ck.violations or ck.known_hit):
+            raise Infra("no replayed segment with three Puts, an encoding, a successful Get and a decode to derive canaries from")
+        ck.notes.append("no complete replayed segment to derive the Put/Get/Enc/Dec canaries from on this (violating) run")
+        partA, c1, c2, c3, c4 = [], [], [], [], []
+    else:
+        ienc = next(i for i, e in enumerate(seg) if e["k"] == "Enc")
+        iget = next(i for i, e in enumerate(seg) if e["k"] == "Get" and e["found"])
+        c1 = copy.deepcopy(seg[:ienc + 1]); lastc = c1[ienc]["cells"][-1]; lastc["b"] = lastc["b"][:-1] + ("0" if lastc["b"][-1] == "1" else "1")   # one value bit flipped in the tree
+        c2 = copy.deepcopy(seg[:iget + 1]); c2[iget]["val"] = c2[iget]["val"][:-1] + ("0" if c2[iget]["val"][-1] == "1" else "1")
+        c3 = copy.deepcopy(seg[:1] + seg[2:ienc + 1])      # first Put dropped
+        idec = next(i for i, e in enumerate(seg) if e["k"] == "Dec")
+        c4 = copy.deepcopy(seg[:idec + 1]); c4[idec]["items"] = list(reversed(c4[idec]["items"]))
+        partA = c1 + c2 + c3 + c4 + copy.deepcopy(seg)
     # ConfigParams.CloneKeepingSubsetOfKeys: an id listed twice in the clone / a reversed listing must be rejected
     sub = next((e for tp in dtraces for e in vlib.read_ndjson(tp) if e.get("k") == "Subset" and e["err"] == "" and len(e["items"]) >= 2), None)
     if sub is None:
@@ -223,19 +235,25 @@ def run(ck):
                     break
         if oseg:
             break
+    obs = []
     if oseg is None:
-        raise Infra("no 256-bit-keyed segment with Values, Count, Json and Balances observations was recorded")
-    sg, iv, ic, ij, ib = oseg
-    o1 = copy.deepcopy(sg[:iv + 1]); o1[iv]["vals"][0], o1[iv]["vals"][1] = o1[iv]["vals"][1], o1[iv]["vals"][0]
-    o2 = copy.deepcopy(sg[:ic + 1]); o2[ic]["count"] += 1
-    o3 = copy.deepcopy(sg[:ij + 1]); o3[ij]["pairs"][0][1] = o3[ij]["pairs"][1][1]
-    o4 = copy.deepcopy(sg[:ij + 1]); o4[ij]["pairs"] = o4[ij]["pairs"][:-1]
-    o5 = copy.deepcopy(sg[:ib + 1]); it = next(x for x in o5[ib]["items"] if x[1] != "0"); it[1] = str(int(it[1]) + 1)
-    o6 = copy.deepcopy(sg[:ib + 1]); o6[ib]["items"] = [x for x in o6[ib]["items"] if x[1] == "0"] + [x for x in o6[ib]["items"] if x[1] != "0"][1:]
-    o7 = copy.deepcopy(sg[:iv + 1]); o7[iv]["keys"] = list(reversed(o7[iv]["keys"])); o7[iv]["vals"] = list(reversed(o7[iv]["vals"]))
-    if "items" in o7[iv]:
-        o7[iv]["items"] = list(reversed(o7[iv]["items"]))
-    partC = o1 + o2 + o3 + o4 + o5 + o6 + o7 + copy.deepcopy(sg)
+        if not (ck.violations or ck.known_hit):
+            raise Infra("no 256-bit-keyed segment with Values, Count, Json and Balances observations was recorded")
+        ck.notes.append("no complete 256-bit-keyed segment to derive the observation canaries from on this (violating) run")
+        partC = []
+    else:
+        sg, iv, ic, ij, ib = oseg
+        o1 = copy.deepcopy(sg[:iv + 1]); o1[iv]["vals"][0], o1[iv]["vals"][1] = o1[iv]["vals"][1], o1[iv]["vals"][0]
+        o2 = copy.deepcopy(sg[:ic + 1]); o2[ic]["count"] += 1
+        o3 = copy.deepcopy(sg[:ij + 1]); o3[ij]["pairs"][0][1] = o3[ij]["pairs"][1][1]
+        o4 = copy.deepcopy(sg[:ij + 1]); o4[ij]["pairs"] = o4[ij]["pairs"][:-1]
+        o5 = copy.deepcopy(sg[:ib + 1]); it = next(x for x in o5[ib]["items"] if x[1] != "0"); it[1] = str(int(it[1]) + 1)
+        o6 = copy.deepcopy(sg[:ib + 1]); o6[ib]["items"] = [x for x in o6[ib]["items"] if x[1] == "0"] + [x for x in o6[ib]["items"] if x[1] != "0"][1:]
+        o7 = copy.deepcopy(sg[:iv + 1]); o7[iv]["keys"] = list(reversed(o7[iv]["keys"])); o7[iv]["vals"] = list(reversed(o7[iv]["vals"]))
+        if "items" in o7[iv]:
+            o7[iv]["items"] = list(reversed(o7[iv]["items"]))
+        obs = [o1, o2, o3, o4, o5, o6, o7]
+        partC = o1 + o2 + o3 + o4 + o5 + o6 + o7 + copy.deepcopy(sg)
     vlib.write_ndjson(p, partA + partB + partC + [{"k": "End"}])
     st = (ck.states, ck.transitions, ck.traces_ok, ck.evaluations)
     _, rej = ck.validate_segments("Dict_Trace", "trace/Dict_Trace.cfg", p, name="canary")
@@ -245,15 +263,17 @@ def run(ck):
     gotB = [x - len(partA) for x in lines if len(partA) < x <= len(partA) + len(partB)]
     gotC = [x - len(partA) - len(partB) for x in lines if x > len(partA) + len(partB)]
     want = [len(c1), len(c1) + len(c2), None, len(c1) + len(c2) + len(c3) + len(c4)]
-    ck.canary("C->S: flipped tree bit / flipped Get value / dropped Put / reversed decode order rejected, original accepted",
-              len(gotA) == 4 and gotA[0] == want[0] and gotA[1] == want[1] and gotA[3] == want[3])
+    if partA:
+        ck.canary("C->S: flipped tree bit / flipped Get value / dropped Put / reversed decode order rejected, original accepted",
+                  len(gotA) == 4 and gotA[0] == want[0] and gotA[1] == want[1] and gotA[3] == want[3])
     ck.canary("C->S: configuration subset listing an id twice / in descending order / with an id missing rejected, original accepted",
               gotB == [2, 4, 6])
     want, tot = [], 0
-    for o in (o1, o2, o3, o4, o5, o6, o7):
+    for o in obs:
         tot += len(o); want.append(tot)
-    ck.canary("C->S: Values column swapped / Count off by one / Json value moved / Json member dropped / balance changed / existing account dropped / "
-              "fresh listing reversed rejected, original accepted", gotC == want)
+    if partC:
+        ck.canary("C->S: Values column swapped / Count off by one / Json value moved / Json member dropped / balance changed / existing account dropped / "
+                  "fresh listing reversed rejected, original accepted", gotC == want)
     return ck.finish(rule=RULE, distinct=nontrivial)
 
 
